@@ -15,6 +15,22 @@ from bitstring.mxfp import (e3m2mxfp_fmt, e2m3mxfp_fmt, e2m1mxfp_fmt, e4m3mxfp_s
 CACHE_SIZE = 256
 
 
+def _tofloat(f: Union[str, float, int]) -> float:
+    """Convert to a float. An integer too large for a float becomes an infinity, as a float literal that is too large does."""
+    try:
+        return float(f)
+    except OverflowError:
+        return float('inf') if f > 0 else float('-inf')
+
+
+def _toint(i: Union[str, int, float]) -> int:
+    """Convert to an int, with a CreationError for values such as infinities that have no integer value."""
+    try:
+        return int(i)
+    except OverflowError:
+        raise bitstring.CreationError(f"{i} can't be converted to an integer.")
+
+
 def tidy_input_string(s: str) -> str:
     """Return string made lowercase and with all whitespace and underscores removed."""
     try:
@@ -68,7 +84,7 @@ def oct2bitstore(octstring: str) -> BitStore:
 
 
 def ue2bitstore(i: Union[str, int]) -> BitStore:
-    i = int(i)
+    i = _toint(i)
     if i < 0:
         raise bitstring.CreationError("Cannot use negative initialiser for unsigned exponential-Golomb.")
     if i == 0:
@@ -83,7 +99,7 @@ def ue2bitstore(i: Union[str, int]) -> BitStore:
 
 
 def se2bitstore(i: Union[str, int]) -> BitStore:
-    i = int(i)
+    i = _toint(i)
     if i > 0:
         u = (i * 2) - 1
     else:
@@ -92,14 +108,14 @@ def se2bitstore(i: Union[str, int]) -> BitStore:
 
 
 def uie2bitstore(i: Union[str, int]) -> BitStore:
-    i = int(i)
+    i = _toint(i)
     if i < 0:
         raise bitstring.CreationError("Cannot use negative initialiser for unsigned interleaved exponential-Golomb.")
     return BitStore('1' if i == 0 else '0' + '0'.join(bin(i + 1)[3:]) + '1')
 
 
 def sie2bitstore(i: Union[str, int]) -> BitStore:
-    i = int(i)
+    i = _toint(i)
     if i == 0:
         return BitStore('1')
     else:
@@ -107,7 +123,7 @@ def sie2bitstore(i: Union[str, int]) -> BitStore:
 
 
 def bfloat2bitstore(f: Union[str, float], big_endian: bool) -> BitStore:
-    f = float(f)
+    f = _tofloat(f)
     fmt = '>f' if big_endian else '<f'
     try:
         b = struct.pack(fmt, f)
@@ -118,19 +134,19 @@ def bfloat2bitstore(f: Union[str, float], big_endian: bool) -> BitStore:
 
 
 def p4binary2bitstore(f: Union[str, float]) -> BitStore:
-    f = float(f)
+    f = _tofloat(f)
     u = p4binary_fmt.float_to_int8(f)
     return int2bitstore(u, 8, False)
 
 
 def p3binary2bitstore(f: Union[str, float]) -> BitStore:
-    f = float(f)
+    f = _tofloat(f)
     u = p3binary_fmt.float_to_int8(f)
     return int2bitstore(u, 8, False)
 
 
 def e4m3mxfp2bitstore(f: Union[str, float]) -> BitStore:
-    f = float(f)
+    f = _tofloat(f)
     if bitstring.options.mxfp_overflow == 'saturate':
         u = e4m3mxfp_saturate_fmt.float_to_int(f)
     else:
@@ -139,7 +155,7 @@ def e4m3mxfp2bitstore(f: Union[str, float]) -> BitStore:
 
 
 def e5m2mxfp2bitstore(f: Union[str, float]) -> BitStore:
-    f = float(f)
+    f = _tofloat(f)
     if bitstring.options.mxfp_overflow == 'saturate':
         u = e5m2mxfp_saturate_fmt.float_to_int(f)
     else:
@@ -148,7 +164,7 @@ def e5m2mxfp2bitstore(f: Union[str, float]) -> BitStore:
 
 
 def e3m2mxfp2bitstore(f: Union[str, float]) -> BitStore:
-    f = float(f)
+    f = _tofloat(f)
     if math.isnan(f):
         raise ValueError("Cannot convert float('nan') to e3m2mxfp format as it has no representation for it.")
     u = e3m2mxfp_fmt.float_to_int(f)
@@ -156,7 +172,7 @@ def e3m2mxfp2bitstore(f: Union[str, float]) -> BitStore:
 
 
 def e2m3mxfp2bitstore(f: Union[str, float]) -> BitStore:
-    f = float(f)
+    f = _tofloat(f)
     if math.isnan(f):
         raise ValueError("Cannot convert float('nan') to e2m3mxfp format as it has no representation for it.")
     u = e2m3mxfp_fmt.float_to_int(f)
@@ -164,7 +180,7 @@ def e2m3mxfp2bitstore(f: Union[str, float]) -> BitStore:
 
 
 def e2m1mxfp2bitstore(f: Union[str, float]) -> BitStore:
-    f = float(f)
+    f = _tofloat(f)
     if math.isnan(f):
         raise ValueError("Cannot convert float('nan') to e2m1mxfp format as it has no representation for it.")
     u = e2m1mxfp_fmt.float_to_int(f)
@@ -175,7 +191,7 @@ e8m0mxfp_allowed_values = [float(2 ** x) for x in range(-127, 128)]
 
 
 def e8m0mxfp2bitstore(f: Union[str, float]) -> BitStore:
-    f = float(f)
+    f = _tofloat(f)
     if math.isnan(f):
         return BitStore('11111111')
     try:
@@ -186,7 +202,7 @@ def e8m0mxfp2bitstore(f: Union[str, float]) -> BitStore:
 
 
 def mxint2bitstore(f: Union[str, float]) -> BitStore:
-    f = float(f)
+    f = _tofloat(f)
     if math.isnan(f):
         raise ValueError("Cannot convert float('nan') to mxint format as it has no representation for it.")
     f *= 2 ** 6  # Remove the implicit scaling factor
@@ -200,7 +216,7 @@ def mxint2bitstore(f: Union[str, float]) -> BitStore:
 
 
 def int2bitstore(i: int, length: int, signed: bool) -> BitStore:
-    i = int(i)
+    i = _toint(i)
     try:
         x = BitStore(bitarray.util.int2ba(i, length=length, endian='big', signed=signed))
     except OverflowError as e:
@@ -224,7 +240,7 @@ def intle2bitstore(i: int, length: int, signed: bool) -> BitStore:
 
 
 def float2bitstore(f: Union[str, float], length: int, big_endian: bool) -> BitStore:
-    f = float(f)
+    f = _tofloat(f)
     fmt = {16: '>e', 32: '>f', 64: '>d'}[length] if big_endian else {16: '<e', 32: '<f', 64: '<d'}[length]
     try:
         b = struct.pack(fmt, f)
